@@ -165,7 +165,15 @@ def relative_cases(tier):
         for phrase, op, parts, clock in (("yesterday at 14:30", "sub", [("day", 1)], (14, 30)),
                                          ("2 days ago 10:30", "sub", [("day", 2)], (10, 30)),
                                          ("tomorrow 9 am", "add", [("day", 1)], (9, 0)),
-                                         ("in 2 weeks at 2pm", "add", [("week", 2)], (14, 0))):
+                                         ("in 2 weeks at 2pm", "add", [("week", 2)], (14, 0)),
+                                         # sub-day units with a clock time: shift first, then the clock
+                                         # time replaces the time of day
+                                         ("1 second ago at 10:30 pm", "sub", [("second", 1)], (22, 30)),
+                                         ("3 hours ago at 10:30", "sub", [("hour", 3)], (10, 30)),
+                                         ("in 90 minutes at 23:45", "add", [("minute", 90)], (23, 45)),
+                                         ("1 day 3 hours ago at 10:30", "sub", [("day", 1), ("hour", 3)], (10, 30)),
+                                         ("in 30 hours 09:15", "add", [("hour", 30)], (9, 15)),
+                                         ("45 minutes ago 00:05", "sub", [("minute", 45)], (0, 5))):
             out.append((b, phrase, (op, parts), clock))
     return out
 
